@@ -184,6 +184,7 @@ def m_route_path_to_segments_guard(ex, args, callee):
 
 class Ctx:
     cur_segments = None
+    into_response = None      # set by the C04 check: MIR name of HttpError::into_response
 
 
 def m_input_path_to_segments(ex, args, callee):
@@ -285,4 +286,9 @@ def describe_result(ex, res):
         allow = [dv(v.content) for n, v in hm.entries if n == 'allow']
         other = [n for n, v in hm.entries if n != 'allow']
         if other: allow.append(('other-headers', other))
-    return ('err', st, allow, e)
+    sent = None
+    if Ctx.into_response is not None:
+        # what the client sees: the error turned into its response (HttpError::into_response from MIR; it consumes the error)
+        resp = ex.call_fn(Ctx.into_response, [e, 'request-id-of-this-request'])
+        sent = [dv(v.content) for n, v in resp.headers.entries if n == 'allow'] if hasattr(resp, 'headers') else ['not-a-response']
+    return ('err', st, allow, e, sent)
